@@ -17,10 +17,13 @@ GAUGE = "emu_mps.mps.MPS.orthogonalize"
 
 
 class Effects:
-    def __init__(self, prog: Program):
+    def __init__(self, prog: Program, tensor_only: bool = False):
         self.prog = prog
         self.summ: dict = {}      # qualname -> {param: set(reasons)}
         self.in_progress: set = set()
+        # tensor_only: count writes into tensor storage only (augmented assignment, subscript store, trailing-underscore
+        # methods); attribute stores and container methods (append, pop, ...) change an object or a list, not a tensor
+        self.tensor_only = tensor_only
 
     # ------------------------------------------------------------- aliases
     def _aliases(self, f: FuncInfo) -> dict:
@@ -119,7 +122,7 @@ class Effects:
             elif isinstance(n, ast.Assign):
                 for t in n.targets:
                     for tt in (t.elts if isinstance(t, (ast.Tuple, ast.List)) else [t]):
-                        if isinstance(tt, (ast.Subscript, ast.Attribute)):
+                        if isinstance(tt, ast.Subscript) or (isinstance(tt, ast.Attribute) and not self.tensor_only):
                             hit(al(tt.value), f"direct:{util.text(n, 50)}")
             elif isinstance(n, ast.Delete):
                 for t in n.targets:
@@ -129,7 +132,7 @@ class Effects:
                 fn = n.func
                 if isinstance(fn, ast.Attribute) and fn.attr.endswith("_") and not fn.attr.startswith("__"):
                     hit(al(fn.value), f"direct:{util.text(n, 50)}")
-                if isinstance(fn, ast.Attribute) and fn.attr in ("append", "extend", "insert", "pop", "clear", "update",
+                if not self.tensor_only and isinstance(fn, ast.Attribute) and fn.attr in ("append", "extend", "insert", "pop", "clear", "update",
                                                                   "sort", "reverse", "remove", "setdefault"):
                     hit(al(fn.value), f"direct:{util.text(n, 50)}")
                 callee, skip = self._resolve(f, n)
